@@ -7,9 +7,11 @@ import BV.Drive.Util
         table, a storage of `storlen` bytes filled with the byte `stale` except `storage[0] = b0`,
         `storage[1] = b1`, starting at `storage_ix = ix0`; `dec` = the `ShouldCompress` answers, one
         `0`/`1` per block (`-` = none)
-        answer: `ok <storage_ix> <fnv of storage[..(ix+7)/8]> <storage[ix>>3]> rp=<r> rd=<d>` | `panic`
+        answer: `ok <storage_ix> <fnv of storage[..(ix+7)/8]> <storage[ix>>3]> rp=<r> cc=<c> rd=<d>` | `panic`
           r: for inputs ≤ 4096 bytes, `replayQ1` of the model's command buffer of every compressed
              block reproduces the block (1/0); `x` = not evaluated
+          c (`cc=`): same inputs as r: the hypothesis `CmdCodeOK` of the block theorem holds of the model's
+             command buffer of every compressed block (1/0/x)
           d: for inputs ≤ 400 bytes with ix0 = 0, the RFC reader `readMetaBlocks` on the written
              bits (+ an empty last meta-block unless is_last) returns the input (1/0); `x` = not evaluated
     fragment q1cc <input> <input_index> <block_size> <input_size> <table_bits> <cap>
@@ -107,6 +109,43 @@ def replayAll (inp : Array Nat) (tableBits minMatch cap : Nat) (dec : Nat → Bo
       | none => false
     | _ => false
 
+/-- the hypothesis `CmdCodeOK` of the block theorem, evaluated: `BuildAndStoreCommandPrefixCode` on the
+histogram of `cmds` returns, the RFC reader reads the two stored descriptions back (alphabets 704, 64) using
+all the bits, and every code word of `cmds` is decoded to its symbol -/
+def cmdCodeCheck (cmds : List Nat) : Bool :=
+  match cmdHistoQ1 cmds with
+  | .ok ch =>
+    match buildAndStoreCommandPrefixCodeQ1 ch (List.replicate 128 0) (List.replicate 128 0) [] with
+    | .ok (cmdD, cmdB, w) =>
+      match BV.MetaBlock.readCode 704 w with
+      | some (cmdC, r1) =>
+        match BV.MetaBlock.readCode 64 r1 with
+        | some (distC, []) =>
+          cmds.all fun c =>
+            let code := c % 256
+            let d := cmdD.getD code 0
+            let b := cmdB.getD code 0
+            decide (code < 128) && decide (d ≤ 56) && decide (b < 2 ^ d) &&
+              (if code < 64 then cmdC.read (bitsOf d b) == some (q1Symbol code, [])
+               else distC.read (bitsOf d b) == some (code - 64, []))
+        | _ => false
+      | none => false
+    | _ => false
+  | _ => false
+
+/-- `cmdCodeCheck` on the command buffer of every compressed block (same loop as `twoPassImpl`) -/
+def ccAll (inp : Array Nat) (tableBits minMatch cap : Nat) (dec : Nat → Bool) :
+    Nat → Nat → Nat → Nat → Array Int → Bool
+  | 0, _, _, _, _ => false
+  | f + 1, k, inputIndex, inputSize, table =>
+    if inputSize = 0 then true else
+    let blockSize := min inputSize kBlockSize
+    match createCommands inputIndex blockSize inputSize inp table tableBits minMatch cap cap with
+    | .ok (table, _, cmds) =>
+      (!(dec k) || cmdCodeCheck cmds) &&
+        ccAll inp tableBits minMatch cap dec f (k + 1) (inputIndex + blockSize) (inputSize - blockSize) table
+    | _ => false
+
 def hexArr (a : Array Nat) (n : Nat) : String := bytesToHex ((a.extract 0 n).toList)
 
 def handle : List String → String
@@ -128,6 +167,9 @@ def handle : List String → String
         let rp := if n ≤ 4096 ∧ 8 ≤ tb ∧ tb ≤ 17 then
             (if replayAll a tb mm cap d (n / kBlockSize + 2) 0 0 n table ⟨[], [4, 11, 15, 16]⟩ then "1" else "0")
           else "x"
+        let cc := if n ≤ 4096 ∧ 8 ≤ tb ∧ tb ≤ 17 then
+            (if ccAll a tb mm cap d (n / kBlockSize + 2) 0 0 n table then "1" else "0")
+          else "x"
         let rd := if n ≤ 400 ∧ natArg ix0 = 0 then
             let bits := (bytesBits s.bytes nb).take s.ix ++
               (if isLast == "1" then [] else [true, true] ++ List.replicate ((8 - (s.ix + 2) % 8) % 8) false)
@@ -135,7 +177,7 @@ def handle : List String → String
             | some (st, rest) => if st.out == a.toList ∧ rest.all (· == false) then "1" else "0"
             | none => "0"
           else "x"
-        s!"ok {s.ix} {fnvBytes s.bytes nb} {s.bytes.getD (s.ix / 8) 0} rp={rp} rd={rd}"
+        s!"ok {s.ix} {fnvBytes s.bytes nb} {s.bytes.getD (s.ix / 8) 0} rp={rp} cc={cc} rd={rd}"
       | _ => "panic"
   | ["q1cc", inp, ii, bs, isz, tb, cap] =>
     match parseInput inp with
